@@ -39,7 +39,7 @@ func Spec() *evid.Spec {
 		},
 		MinNontrivial: 100,
 		Lanes: []evid.Lane{{
-			Name: "differential", Children: evid.Const(16, 16), Cases: evid.Const(40, 3000), TimeoutS: evid.Const(600, 5400),
+			Name: "differential", Children: evid.Const(16, 16), Cases: evid.Const(40, 1000), TimeoutS: evid.Const(600, 7200),
 			Setup: func(ch *evid.Child) { ch.Data = qsim.NewEnv() },
 			Run:   run,
 		}},
